@@ -8,7 +8,8 @@
 void
 env_pipe_init(nni_pipe *p, uint32_t id, uint16_t peer)
 {
-	memset(p, 0, sizeof(*p));
+	static const struct nni_pipe zero;
+	*p = zero; /* struct assignment: keeps field sensitivity in symex (memset does not) */
 	p->id   = id;
 	p->peer = peer;
 }
